@@ -71,6 +71,7 @@ def unhalted(func):
         reasons = [
             HaltReason.INSTRUCTION,
             HaltReason.END_OF_CODE,
+            HaltReason.TRAP,
         ]
         if self.cpu.halted and self.cpu.halt_reason in reasons:
             print('Machine is halted.')
